@@ -235,7 +235,7 @@ bool DTDScanner::expandPERef( const   bool    scanExternal
             fScanner->emitError(XMLErrs::EntityNotFound, bbName.getRawBuffer());
         }
         else {
-            if (fScanner->getValidationScheme() == XMLScanner::Val_Always)
+            if (fScanner->getValidationScheme() != XMLScanner::Val_Never)
                 fScanner->getValidator()->emitError(XMLValid::VC_EntityNotFound, bbName.getRawBuffer());
         }
 
@@ -247,7 +247,7 @@ bool DTDScanner::expandPERef( const   bool    scanExternal
     //  If we are a standalone document, then it has to have been declared
     //  in the internal subset. Keep going though.
     //
-    if (fScanner->getValidationScheme() == XMLScanner::Val_Always && fScanner->getStandalone() && !decl->getDeclaredInIntSubset())
+    if (fScanner->getValidationScheme() != XMLScanner::Val_Never && fScanner->getStandalone() && !decl->getDeclaredInIntSubset())
         fScanner->getValidator()->emitError(XMLValid::VC_IllegalRefInStandalone, bbName.getRawBuffer());
 
     //
@@ -547,7 +547,7 @@ DTDScanner::scanAttDef(DTDElementDecl& parentElem, XMLBuffer& bufToUse)
     scanDefaultDecl(*decl);
 
     // If validating, then do a couple of validation constraints
-    if (fScanner->getValidationScheme() == XMLScanner::Val_Always)
+    if (fScanner->getValidationScheme() != XMLScanner::Val_Never)
     {
         if (decl->getType() == XMLAttDef::ID)
         {
@@ -710,7 +710,7 @@ void DTDScanner::scanAttListDecl()
             //  make sure that we have not seen an id attribute yet. Set
             //  the flag to say that we've seen one now also.
             //
-            if (fScanner->getValidationScheme() == XMLScanner::Val_Always)
+            if (fScanner->getValidationScheme() != XMLScanner::Val_Never)
             {
                 if (attDef->getType() == XMLAttDef::ID)
                 {
@@ -1262,7 +1262,7 @@ DTDScanner::scanChildren(const DTDElementDecl& elemDecl, XMLBuffer& bufToUse, un
                             return 0;
                         }
 
-                        if (curReader != fReaderMgr->getCurrentReaderNum() && fScanner->getValidationScheme() == XMLScanner::Val_Always)
+                        if (curReader != fReaderMgr->getCurrentReaderNum() && fScanner->getValidationScheme() != XMLScanner::Val_Never)
                             fScanner->getValidator()->emitError(XMLValid::PartialMarkupInPE);
 
                         // Else patch it in and make it the new current
@@ -1386,7 +1386,7 @@ DTDScanner::scanChildren(const DTDElementDecl& elemDecl, XMLBuffer& bufToUse, un
                 return 0;
 
             const XMLSize_t curReader = arrNestedDecl->pop();
-            if (curReader != fReaderMgr->getCurrentReaderNum() && fScanner->getValidationScheme() == XMLScanner::Val_Always)
+            if (curReader != fReaderMgr->getCurrentReaderNum() && fScanner->getValidationScheme() != XMLScanner::Val_Never)
                 fScanner->getValidator()->emitError(XMLValid::PartialMarkupInPE);
 
             if(arrNestedDecl->empty())
@@ -1569,7 +1569,7 @@ bool DTDScanner::scanContentSpec(DTDElementDecl& toFill)
         //  If we are validating we have to check that there are no multiple
         //  uses of any child elements.
         //
-        if (fScanner->getValidationScheme() == XMLScanner::Val_Always)
+        if (fScanner->getValidationScheme() != XMLScanner::Val_Never)
         {
             if (((const MixedContentModel*)toFill.getContentModel())->hasDups())
                 fScanner->getValidator()->emitError(XMLValid::RepElemInMixed);
@@ -1592,7 +1592,7 @@ bool DTDScanner::scanContentSpec(DTDElementDecl& toFill)
     }
 
     // Make sure we are on the same reader as where we started
-    if (curReader != fReaderMgr->getCurrentReaderNum() && fScanner->getValidationScheme() == XMLScanner::Val_Always)
+    if (curReader != fReaderMgr->getCurrentReaderNum() && fScanner->getValidationScheme() != XMLScanner::Val_Never)
         fScanner->getValidator()->emitError(XMLValid::PartialMarkupInPE);
 
     return status;
@@ -1683,7 +1683,7 @@ void DTDScanner::scanElementDecl()
     {
         if (decl->isDeclared())
         {
-            if (fScanner->getValidationScheme() == XMLScanner::Val_Always)
+            if (fScanner->getValidationScheme() != XMLScanner::Val_Never)
                 fScanner->getValidator()->emitError(XMLValid::ElementAlreadyExists, bbName.getRawBuffer());
 
             if (!fDumElemDecl)
@@ -1983,7 +1983,7 @@ DTDScanner::scanEntityRef(XMLCh& firstCh, XMLCh& secondCh, bool& escaped)
             fScanner->emitError(XMLErrs::EntityNotFound, bbName.getRawBuffer());
         }
         else {
-            if (fScanner->getValidationScheme() == XMLScanner::Val_Always)
+            if (fScanner->getValidationScheme() != XMLScanner::Val_Never)
                 fScanner->getValidator()->emitError(XMLValid::VC_EntityNotFound, bbName.getRawBuffer());
         }
 
@@ -2266,7 +2266,7 @@ bool DTDScanner::scanEntityLiteral(XMLBuffer& toFill)
     //  then we propogated some entity out of the literal, so issue an
     //  error, but don't fail.
     //
-    if (fReaderMgr->getCurrentReaderNum() != orgReader && fScanner->getValidationScheme() == XMLScanner::Val_Always)
+    if (fReaderMgr->getCurrentReaderNum() != orgReader && fScanner->getValidationScheme() != XMLScanner::Val_Never)
         fScanner->getValidator()->emitError(XMLValid::PartialMarkupInPE);
 
     return true;
@@ -2554,7 +2554,7 @@ void DTDScanner::scanExtSubsetDecl(const bool inIncludeSect, const bool isDTD)
                     if (fReaderMgr->getCurrentReaderNum() != orgReader){
                         if (wasInPE)
                             fScanner->emitError(XMLErrs::PEBetweenDecl);
-                        else if (fScanner->getValidationScheme() == XMLScanner::Val_Always)
+                        else if (fScanner->getValidationScheme() != XMLScanner::Val_Never)
                             fScanner->getValidator()->emitError(XMLValid::PartialMarkupInPE);
                     }
 
@@ -2991,7 +2991,7 @@ bool DTDScanner::scanInternalSubset()
             if (fReaderMgr->getCurrentReaderNum() != orgReader) {
                 if (wasInPE)
                     fScanner->emitError(XMLErrs::PEBetweenDecl);
-                else if (fScanner->getValidationScheme() == XMLScanner::Val_Always)
+                else if (fScanner->getValidationScheme() != XMLScanner::Val_Never)
                     fScanner->getValidator()->emitError(XMLValid::PartialMarkupInPE);
             }
         }
@@ -3131,7 +3131,7 @@ void DTDScanner::scanMarkupDecl(const bool parseTextDecl)
                 //  And see if we got back to the same level. If not, then its
                 //  a partial markup error.
                 //
-                if (fReaderMgr->getCurrentReaderNum() != orgReader && fScanner->getValidationScheme() == XMLScanner::Val_Always)
+                if (fReaderMgr->getCurrentReaderNum() != orgReader && fScanner->getValidationScheme() != XMLScanner::Val_Never)
                     fScanner->getValidator()->emitError(XMLValid::PartialMarkupInPE);
 
             }
@@ -3153,7 +3153,7 @@ void DTDScanner::scanMarkupDecl(const bool parseTextDecl)
                 //  And see if we got back to the same level. If not, then its
                 //  a partial markup error.
                 //
-                if (fReaderMgr->getCurrentReaderNum() != orgReader && fScanner->getValidationScheme() == XMLScanner::Val_Always)
+                if (fReaderMgr->getCurrentReaderNum() != orgReader && fScanner->getValidationScheme() != XMLScanner::Val_Never)
                     fScanner->getValidator()->emitError(XMLValid::PartialMarkupInPE);
 
             }
